@@ -229,6 +229,14 @@ func (w *world) exec(op string) (string, int) {
 		}
 		return "ok", 0
 	}
+	if f[0] == "extwin" && len(f) == 2 {
+		// another allocator under the same root (a dc-location's) persists its window
+		if _, err := w.e.Client.Put(context.Background(), path.Join(w.root, "lta", "dc-x", "timestamp"),
+			string(typeutil.Uint64ToBytes(uint64(atoi(f[1]))))); err != nil {
+			panic(err)
+		}
+		return "ok", 0
+	}
 	if f[0] == "dropkey" {
 		// the leader record vanishes while its owner's local lease check still answers true
 		if _, err := w.e.Client.Delete(context.Background(), path.Join(w.root, "leader")); err != nil {
@@ -461,6 +469,7 @@ func gen(w *world, t *trace.W, r *rng.R, maxOps int) {
 	clock := func(m int) int64 { return baseNs + skew[m] + elapsed }
 	parked := map[int]bool{}
 	leader := 1
+	extWin := int64(0)
 	keyDropped := false // the leader record was deleted out of band and nobody has campaigned since
 	w.run(t, "lead 1")
 	w.run(t, fmt.Sprintf("sync 1 %d none", clock(1)))
@@ -510,7 +519,14 @@ func gen(w *world, t *trace.W, r *rng.R, maxOps int) {
 			}
 			continue
 		}
-		switch r.Pick(34, 22, 7, 5, 3, 10, 7, 2, 1, 3, 2, 6) {
+		switch r.Pick(34, 22, 7, 5, 3, 10, 7, 2, 1, 3, 2, 6, 3) {
+		case 12:
+			// a dc-location allocator's window under the same root, ahead of this allocator's (only the global
+			// allocator's loadTimestamp sees it: a local allocator's root is its own leader key)
+			if w.bits == 0 {
+				extWin += []int64{1e9, 10e9, 3600e9, 7200e9}[r.Intn(4)]
+				w.run(t, fmt.Sprintf("extwin %d", clock(leader)+extWin))
+			}
 		case 11:
 			// a request that has to retry (counter overflow, or memory not yet synchronised) while, during its
 			// sleep, the updater advances the time / the allocator is synchronised / the lease runs out
